@@ -1,5 +1,6 @@
 import OdakModel.Exec.OpsGeom
 import OdakModel.Geometry
+import OdakModel.Rays
 import OdakModel.Generated.Constants
 namespace Odak.Exec
 open Odak
@@ -29,5 +30,33 @@ def opsRay : List (String × Handler) := [
     | .noConvergence => "2 0 0 0 0 0"
     | .ok t it => let o := refractDir mu t d n
       "0 " ++ toString it ++ " " ++ outF [t, o.x, o.y, o.z])
+]
+end Odak.Exec
+
+namespace Odak.Exec
+open Odak
+def opsRays : List (String × Handler) := [
+  ("ray2", fun a => let x := a.toArray; showV (rayDirTwoPoints (v3 x 0) (v3 x 3))),
+  ("allpairs", fun a => match a with
+    | [n, idx] => let (i, j) := allPairsIndex n.toNat idx.toNat; outI [i, j]
+    | _ => "bad-args"),
+  -- cone which(0 point,1 grid) tilt(3) limit U V
+  ("cone", fun a => let x := a.toArray
+    let c : Float := if x.getD 0 0 = 0 then Gen.coneCoeffPoint else Gen.coneCoeffGrid
+    showV (coneDir c (v3 x 1) (fl (x.getD 4 0)) (fl (x.getD 5 0)) (fl (x.getD 6 0)))),
+  -- sample kind no0 no1 no2 | floats…  then angles(3) center(3) zeroflag
+  ("grid_pt", fun a => let x := a.toArray
+    let p := gridPoint (x.getD 0 0).toNat (x.getD 1 0).toNat (fl (x.getD 2 0)) (fl (x.getD 3 0)) (x.getD 4 0).toNat (x.getD 5 0).toNat
+    showV (placeSample (v3 x 6) (v3 x 9) p (x.getD 12 0 != 0))),
+  ("box_pt", fun a => let x := a.toArray
+    let p := boxPoint (x.getD 0 0).toNat (x.getD 1 0).toNat (x.getD 2 0).toNat (fl (x.getD 3 0)) (fl (x.getD 4 0)) (fl (x.getD 5 0))
+      (x.getD 6 0).toNat (x.getD 7 0).toNat (x.getD 8 0).toNat
+    showV (placeSample (v3 x 9) (v3 x 12) p (x.getD 15 0 != 0))),
+  ("circ_pt", fun a => let x := a.toArray
+    let p := circularPoint (x.getD 0 0).toNat (x.getD 1 0).toNat (fl (x.getD 2 0)) (x.getD 3 0).toNat (x.getD 4 0).toNat
+    showV (placeSample (v3 x 5) (v3 x 8) p (x.getD 11 0 != 0))),
+  ("sphere_pt", fun a => let x := a.toArray
+    showV (spherePoint (x.getD 0 0).toNat (x.getD 1 0).toNat (fl (x.getD 2 0)) (v3 x 3) (fl (x.getD 6 0)) (fl (x.getD 7 0))
+      (x.getD 8 0).toNat (x.getD 9 0).toNat))
 ]
 end Odak.Exec
